@@ -28,12 +28,41 @@ SHIM_C = r'''
 #include <sys/types.h>
 /* frozen clock, and a constant instead of /dev/urandom (the hash seed of a new content file) */
 time_t time(time_t* t) { time_t v = %dL; if (t) *t = v; return v; }
+#include <stdlib.h>
+#include <unistd.h>
+/* optional slow disk: reads of files whose path contains $C13_SLOW_DIR are delayed by $C13_SLOW_US microseconds,
+   so that the reader of that disk finishes last (arrival order of io_data_read differs from the disk order) */
+static unsigned char shim_slow_fd[4096];
 static int shim_open(const char* name, const char* path, int flags, mode_t mode)
 {
 	int (*real)(const char*, int, ...) = (int (*)(const char*, int, ...))dlsym(RTLD_NEXT, name);
+	const char* slow = getenv("C13_SLOW_DIR");
+	int fd;
 	if (strcmp(path, "/dev/urandom") == 0)
 		path = "/dev/zero";
-	return real(path, flags, mode);
+	fd = real(path, flags, mode);
+	if (fd >= 0 && fd < 4096)
+		shim_slow_fd[fd] = slow != 0 && strstr(path, slow) != 0;
+	return fd;
+}
+static void shim_delay(int fd)
+{
+	if (fd >= 0 && fd < 4096 && shim_slow_fd[fd]) {
+		const char* us = getenv("C13_SLOW_US");
+		usleep(us ? atoi(us) : 300);
+	}
+}
+ssize_t pread(int fd, void* buf, size_t count, off_t offset)
+{
+	ssize_t (*real)(int, void*, size_t, off_t) = (ssize_t (*)(int, void*, size_t, off_t))dlsym(RTLD_NEXT, "pread");
+	shim_delay(fd);
+	return real(fd, buf, count, offset);
+}
+ssize_t pread64(int fd, void* buf, size_t count, off64_t offset)
+{
+	ssize_t (*real)(int, void*, size_t, off64_t) = (ssize_t (*)(int, void*, size_t, off64_t))dlsym(RTLD_NEXT, "pread64");
+	shim_delay(fd);
+	return real(fd, buf, count, offset);
 }
 int open(const char* path, int flags, ...)
 {
@@ -72,7 +101,7 @@ int open64(const char* path, int flags, ...)
 class Array:
     """a template array on disk: nd data disks, np parity levels, 1 KiB blocks"""
 
-    def __init__(self, base, nd, np_, seed):
+    def __init__(self, base, nd, np_, seed, oneblock=0):
         self.base, self.nd, self.np, self.seed = base, nd, np_, seed
         self.tmpl = os.path.join(base, 'tmpl')
         self.work = os.path.join(base, 'work')
@@ -85,8 +114,8 @@ class Array:
             blocks = 0
             target = rng.randrange(18, 38)
             k = 0
-            while blocks < target:
-                sz = rng.choice([0, 1, 500, 1024, 1025, 2048, 3000, 4096, 5000, 7000])
+            while (k < oneblock) if oneblock else (blocks < target):
+                sz = 1024 if oneblock else rng.choice([0, 1, 500, 1024, 1025, 2048, 3000, 4096, 5000, 7000])
                 p = os.path.join(dd, 'f%02d' % k)
                 with open(p, 'wb') as f:
                     f.write(bytes(rng.getrandbits(8) for _ in range(sz)))
@@ -160,7 +189,7 @@ class Array:
         return out
 
 
-def run_tool(tool, arr, cache, cmd, env_extra=None, timeout=60, sigint_after=None, log=True):
+def run_tool(tool, arr, cache, cmd, env_extra=None, timeout=60, sigint_after=None, log=True, opts=()):
     """returns (rc or 'timeout', stdout, sorted relevant log lines)"""
     env = dict(os.environ)
     env.pop('SNAPRAID_VERIF_TRACE', None)
@@ -170,7 +199,7 @@ def run_tool(tool, arr, cache, cmd, env_extra=None, timeout=60, sigint_after=Non
     logp = os.path.join(arr.base, 'log')
     if os.path.exists(logp):
         os.remove(logp)
-    argv = [tool] + FAST + ['--test-io-cache', str(cache), '-c', arr.conf()] + (['-l', logp] if log else []) + cmd
+    argv = [tool] + FAST + list(opts) + ['--test-io-cache', str(cache), '-c', arr.conf()] + (['-l', logp] if log else []) + cmd
     p = subprocess.Popen(argv, stdout=subprocess.PIPE, stderr=subprocess.STDOUT, text=True, env=env)
     try:
         if sigint_after is not None:
@@ -426,6 +455,142 @@ def differential(chk, tool, shim, arrays, caches, tier):
     return stats
 
 
+def _rewrite(path, data, mtime):
+    with open(path, 'wb') as f:
+        f.write(data)
+    os.utime(path, (mtime, mtime))
+
+
+def _flip(path, off=300):
+    st = os.stat(path)
+    with open(path, 'r+b') as f:
+        f.seek(off)
+        b = f.read(1)
+        f.seek(off)
+        f.write(bytes([b[0] ^ 0x55]))
+    os.utime(path, ns=(st.st_atime_ns, st.st_mtime_ns))
+
+
+def diff_rehash(chk, tool, shim, base, rng, caches=(1, 3, 8, 128)):
+    """pending rehash + changed files, synced under different cache depths and reader arrival orders:
+    the content file (block hashes, rehash flags) must be the same and a following check must be clean"""
+    stats = {'variants': 0, 'check_runs': 0}
+    env0 = {'LD_PRELOAD': shim} if shim else {}
+    d = os.path.join(base, 'arr_rehash')
+    os.makedirs(d)
+    arr = Array(d, 3, 2, rng.randrange(1, 10 ** 6))
+    arr.fresh()
+    pdir = os.path.join(arr.work, 'p')
+    descr0 = {'array': {'nd': arr.nd, 'np': arr.np, 'seed': arr.seed}, 'scenario': 'sync --test-force-murmur3; rehash --test-force-spooky2; rewrite files of d1, add a file to d2; sync'}
+    rc, out, tags = run_tool(tool, arr, 1, ['sync'], env0, opts=['--test-force-murmur3'])
+    rc2, out2, tags2 = run_tool(tool, arr, 1, ['rehash'], env0, opts=['--test-force-spooky2'])
+    if rc != 0 or rc2 != 0:
+        chk.notes.append('rehash scenario could not be prepared (sync rc %s, rehash rc %s: %s)' % (rc, rc2, out2.strip().split('\n')[-1][:200]))
+        return stats
+    r2 = random.Random(arr.seed + 5)
+    mine = [n for n, sz in arr.files if n.startswith('d1/') and sz >= 1024]
+    for name in mine[:3]:
+        sz = dict(arr.files)[name]
+        _rewrite(os.path.join(arr.work, name), bytes(r2.getrandbits(8) for _ in range(sz)), 1500003000)
+    _rewrite(os.path.join(arr.work, 'd2', 'new'), bytes(r2.getrandbits(8) for _ in range(9000)), 1500003000)
+    for k in range(arr.nd):
+        os.utime(os.path.join(arr.work, 'd%d' % k), (1500000000, 1500000000))
+    save = os.path.join(arr.base, 'save_rehash')
+    shutil.copytree(pdir, save, copy_function=shutil.copy2)
+    modes = [('plain', {})] + [('yield%d' % y, {'SNAPRAID_VERIF_YIELD': str(y)}) for y in (1, 2, 3)] + \
+            [('slow_d%d' % k, {'C13_SLOW_DIR': '/work/d%d/' % k, 'C13_SLOW_US': '400'}) for k in range(arr.nd)]
+    ref = None
+    for cache in caches:
+        for mname, menv in modes:
+            if cache == 1 and mname != 'plain':
+                continue
+            shutil.rmtree(pdir)
+            shutil.copytree(save, pdir, copy_function=shutil.copy2)
+            env = dict(env0)
+            env.update(menv)
+            rc, out, tags = run_tool(tool, arr, cache, ['sync'], env, timeout=30)
+            snap_ = arr.snapshot()
+            crc, cout, ctags = run_tool(tool, arr, 1, ['check'], env0, timeout=30)
+            stats['variants'] += 1
+            stats['check_runs'] += 1
+            descr = dict(descr0, io_cache=cache, mode=mname, env=menv)
+            cerr = [t for t in ctags if t.startswith(('error:', 'parity_error', 'unrecoverable'))]
+            if rc == 'timeout' or crc == 'timeout':
+                chk.violation('hang_diff_rehash_%d_%s' % (cache, mname), 'sync/check with a pending rehash does not terminate (--test-io-cache %d, %s)' % (cache, mname), descr)
+                return stats
+            if rc == 0 and (crc != 0 or cerr):
+                chk.violation('diff_rehash_check_%d_%s' % (cache, mname),
+                              'sync with a pending rehash (--test-io-cache %d, reader order %s) reports success but the following check fails: rc %s, %s'
+                              % (cache, mname, crc, (cerr or [cout.strip().split('\n')[-1]])[:2]), dict(descr, check_tags=ctags[:20], sync_tags=tags[:20]))
+            cur_ = (rc, tags, snap_)
+            if ref is None:
+                ref = (cur_, cache, mname)
+            elif cur_ != ref[0]:
+                what = 'exit status' if rc != ref[0][0] else ('error tags' if tags != ref[0][1] else ', '.join(k for k in snap_ if snap_[k] != ref[0][2][k]))
+                chk.violation('diff_rehash_state_%d_%s' % (cache, mname),
+                              'sync with a pending rehash: %s differ between (--test-io-cache %d, %s) and (--test-io-cache %d, %s): block hashes / rehash flags depend on the reader arrival order'
+                              % (what, ref[1], ref[2], cache, mname), dict(descr, a=ref[0], b=cur_))
+    return stats
+
+
+def diff_scrub_touch(chk, tool, shim, base, rng, caches=(1, 3, 4, 5, 8, 128)):
+    """scrub of an array with files touched / modified since the sync plus silent errors at every distance 1..10
+    from the touched file on the same disk: summary counters, error tags and bad marks must not depend on the depth"""
+    stats = {'variants': 0}
+    env0 = {'LD_PRELOAD': shim} if shim else {}
+    nfiles = 14
+    for nd in (1, 2):
+        d = os.path.join(base, 'arr_touch%d' % nd)
+        os.makedirs(d)
+        arr = Array(d, nd, 1, rng.randrange(1, 10 ** 6), oneblock=nfiles)
+        arr.fresh()
+        pdir = os.path.join(arr.work, 'p')
+        rc, out, tags = run_tool(tool, arr, 1, ['sync'], env0)
+        if rc != 0:
+            chk.notes.append('touch scenario could not be prepared (sync rc %s)' % rc)
+            continue
+        corrupted = list(range(1, 11))
+        for k in range(nd):
+            p0 = os.path.join(arr.work, 'd%d' % k, 'f00')
+            os.utime(p0, (1500009000, 1500009000))                  # touched: same content, new mtime
+        for i in corrupted:
+            _flip(os.path.join(arr.work, 'd0', 'f%02d' % i))          # silent errors at distance 1..10 from the touched file
+        r2 = random.Random(arr.seed)
+        _rewrite(os.path.join(arr.work, 'd0', 'f%02d' % (nfiles - 1)), bytes(r2.getrandbits(8) for _ in range(1024)), 1500009500)   # really modified
+        for k in range(nd):
+            os.utime(os.path.join(arr.work, 'd%d' % k), (1500000000, 1500000000))
+        save = os.path.join(arr.base, 'save_touch')
+        shutil.copytree(pdir, save, copy_function=shutil.copy2)
+        descr0 = {'array': {'nd': nd, 'np': 1, 'seed': arr.seed, 'one_block_files_per_disk': nfiles},
+                  'scenario': 'sync; touch f00 on every disk; flip one byte (same size and mtime) in d0/f01..f10; rewrite d0/f13; scrub -p full'}
+        ref = None
+        for cache in caches:
+            shutil.rmtree(pdir)
+            shutil.copytree(save, pdir, copy_function=shutil.copy2)
+            rc, out, tags = run_tool(tool, arr, cache, ['scrub', '-p', 'full'], env0, timeout=30)
+            stats['variants'] += 1
+            descr = dict(descr0, io_cache=cache)
+            if rc == 'timeout':
+                chk.violation('hang_diff_touch_%d' % cache, 'scrub does not terminate (--test-io-cache %d)' % cache, descr)
+                return stats
+            summ = dict(t.split(':')[1:3] for t in tags if t.startswith('summary:error_'))
+            # independent expectation: every silently corrupted block of an untouched file is a data (silent) error,
+            # the rewritten file is a file error, the touched-but-identical file is no error
+            if summ.get('error_data') != str(len(corrupted)) or summ.get('error_file') != '1':
+                chk.violation('diff_touch_count_%d_nd%d' % (cache, nd),
+                              'scrub --test-io-cache %d: %d silently corrupted blocks of unmodified files and 1 modified file are reported as error_data=%s error_file=%s '
+                              '(a silent error is classified by the time-stamp state of ANOTHER file that used the same ring slot)'
+                              % (cache, len(corrupted), summ.get('error_data'), summ.get('error_file')), dict(descr, tags=tags[:40]))
+            cur_ = (rc, tags, arr.snapshot())
+            if ref is None:
+                ref = (cur_, cache)
+            elif cur_ != ref[0]:
+                what = 'exit status' if rc != ref[0][0] else ('error/summary tags' if tags != ref[0][1] else 'content file (bad marks)')
+                chk.violation('diff_touch_state_%d_nd%d' % (cache, nd),
+                              'scrub with touched files and silent errors: %s differ between --test-io-cache %d and %d' % (what, ref[1], cache), dict(descr, a=ref[0], b=cur_))
+    return stats
+
+
 def build_tsan(snap):
     cflags = ['-O1', '-g', '-D' + GUARD, '-fsanitize=thread', '-fno-omit-frame-pointer']
     objs = _compile_many_tsan(snap, cflags)
@@ -473,7 +638,7 @@ def cap_violations(chk, per_category=3):
     chk.suppressed = collections.Counter()
 
     def capped(tag, what, replay_obj, no_input=False, finding_key=None):
-        cat = tag.split('_')[0] + ('_' + tag.split('_')[1] if tag.startswith(('diff_', 'hang_')) else '')
+        cat = '_'.join(tag.split('_')[:3]) if tag.startswith('diff_') else tag.split('_')[0]
         seen[cat] += 1
         if seen[cat] > per_category:
             chk.suppressed[cat] += 1
@@ -574,6 +739,14 @@ def main(tier, replay=None):
     t1 = time.time()
     # ---- (ii) differential
     dstats = differential(chk, tool, shim, arrays, DIFF_CACHES, tier)
+    if not dstats.get('hang'):
+        dstats['rehash'] = diff_rehash(chk, tool, shim, base, rng)
+        dstats['scrub_touch'] = diff_scrub_touch(chk, tool, shim, base, rng)
+        if tier == 'thorough':
+            for _ in range(4):
+                sub = os.path.join(base, 'more%d' % _)
+                os.makedirs(sub)
+                diff_rehash(chk, tool, shim, sub, rng)
 
     phase['differential_s'] = round(time.time() - t1, 1)
     # ---- (iii) ThreadSanitizer, thorough only
